@@ -6,7 +6,8 @@ from workloads.membership import Run
 
 PROPERTY = 'C16'
 LEVEL = 'exploration'
-RULE = ('two workload families - (a) membership: generated fault scripts; (b) applications: automatic distribution, '
+RULE = ('three workload families - (c) one real instance fed by scripted peers (L2 fuzz of C13 plus events about '
+        'unknown processes / applications); (a) membership: generated fault scripts; (b) applications: automatic distribution, '
         'user start / stop / restart requests, kills, duplicates, instance loss and restart, targets crashing at the '
         'emission of a start request, immortal processes, 0-25% of PROCESS publications silently dropped - on '
         'generated clusters (1-5 instances, 1-3 nodes, options, rules, Supervisor configurations) executed under '
@@ -16,8 +17,8 @@ RULE = ('two workload families - (a) membership: generated fault scripts; (b) ap
         'kinds, late joiner) tuples')
 ASSUMPTIONS = ['simulated transport and OS layer (DESIGN.md 2.1) are faithful',
                'statistics collector process and UDP discovery not exercised']
-FLOORS = {'quick': {'events_observed': 5000, 'liveness_evaluations': 50},
-          'thorough': {'events_observed': 50000, 'liveness_evaluations': 500}}
+FLOORS = {'quick': {'events_observed': 5000, 'liveness_evaluations': 50, 'messages_injected': 3000},
+          'thorough': {'events_observed': 50000, 'liveness_evaluations': 500, 'messages_injected': 60000}}
 COUNT = {'quick': 320, 'thorough': 6000}
 BUDGET_S = {'quick': 50, 'thorough': 520}
 
@@ -37,23 +38,38 @@ APPS_KNOBS = {'n_min': 1, 'n_max': 4, 'publisher': True,
               'n_actions': [1, 2, 3, 4, 6, 8], 'early_p': 0.3}
 
 
+FUZZ_KNOBS = {'n_steps': [60, 100, 160], 'unknown_process_p': 0.15}
+
+
 def plan(tier, seed):
-    # two workload families: membership faults and application activity under a lossy channel
-    return [{'seed': seed * 1000003 + i, 'family': 'membership' if i % 2 == 0 else 'apps'}
-            for i in range(COUNT[tier])]
+    # three workload families: membership faults, application activity under a lossy channel, and one real instance
+    # fed by scripted peers (stale / duplicated / forged notifications, events about unknown processes)
+    cases = [{'seed': seed * 1000003 + i, 'family': 'membership' if i % 2 == 0 else 'apps'}
+             for i in range(COUNT[tier])]
+    cases += [{'seed': seed * 1000003 + 700000 + i, 'family': 'fuzz'} for i in range(COUNT[tier] // 2)]
+    return cases
 
 
 def run_case(case):
     mon = InternalFailureMonitor()
-    if case.get('family', 'membership') == 'membership':
+    family = case.get('family', 'membership')
+    if family == 'membership':
         run = Run(case, KNOBS, [mon])
         violations = run.execute()
         nontrivial = any(not d.get('noop') for d in run.disturbances)
-    else:
+    elif family == 'apps':
         from workloads.apps import Run as AppsRun
         run = AppsRun(case, APPS_KNOBS, [mon])
         violations = run.execute()
         nontrivial = bool(run.actions)
+    else:
+        from workloads.isolation_fuzz import FuzzRun
+        run = FuzzRun(case, FUZZ_KNOBS, [mon])
+        violations = [v for v in run.execute() if v['key'].startswith('C16/')]
+        run.counters = {k: v for k, v in run.counters.items()
+                        if k in ('messages_injected', 'proxy_steps', 'critical_records', 'events_observed',
+                                 'liveness_evaluations')}
+        nontrivial = run.counters.get('messages_injected', 0) > 0
     return {'violations': violations, 'counters': run.counters,
-            'signature': (case.get('family', 'm') + '|' + run.shape()) if nontrivial else None,
+            'signature': (family + '|' + run.shape()) if nontrivial else None,
             'sample': run.describe()}
